@@ -68,6 +68,8 @@ class Coll:
         c.bin_extra = {k: v.copy() for k, v in self.bin_extra.items()}
         c.pixels = self.pixels.copy()
         c.metadata = copy.deepcopy(self.metadata)
+        if hasattr(self, "dtype_alternatives"):
+            c.dtype_alternatives = {k: set(v) for k, v in self.dtype_alternatives.items()}
         return c
 
     @property
